@@ -682,15 +682,15 @@ Lemma region_rest_head : forall d off, 0 <= off < dsize d ->
 Proof.
   induction d as [|r d IH]; intros off H; unfold dsize in *; cbn [flat concat] in *.
   - rewrite Zlength_nil in H. lia.
-  - cbn [region_rest]. rewrite Zlength_app in H. pose proof (Zlength_nonneg r).
+  - cbn [region_rest]. rewrite Zlength_app in H. pose proof (Zlength_nonneg r). pose proof (Zlength_correct r) as Zr.
     destruct (Z.ltb_spec off (Zlength r)).
     + destruct (nth_error r (Z.to_nat off)) eqn:E.
       * destruct (skipn_nth _ _ _ E) as [tl Htl]. exists z, tl. split; auto.
-        rewrite nth_error_app1; auto. rewrite Zlength_correct in *; lia.
-      * apply nth_error_None in E. rewrite Zlength_correct in *; lia.
-    + destruct (IH (off - Zlength r)) as (x & tl & E1 & E2); [fold (flat d); lia|].
-      exists x, tl. split; auto. rewrite nth_error_app2 by (rewrite Zlength_correct in *; lia).
-      rewrite <- E2. f_equal. rewrite Zlength_correct in *. lia.
+        rewrite nth_error_app1; auto. lia.
+      * apply nth_error_None in E. lia.
+    + destruct (IH (off - Zlength r)) as (x & tl & E1 & E2); [lia|].
+      exists x, tl. split; auto. rewrite nth_error_app2 by lia.
+      rewrite <- E2. f_equal. lia.
 Qed.
 
 Lemma Zlength_pos : forall (l : list Z), l <> [] -> 0 < Zlength l.
